@@ -81,7 +81,7 @@ type c28node struct {
 	db    *c28pdb
 	progs map[int64][]c28txn
 	sc    *statecache.StateCache
-	lost  map[int64]string // round being executed -> first removal of a node of this block that no collector recorded
+	lost  map[int64]string  // round being executed -> first removal of a node of this block that no collector recorded
 	lostB map[string]string // the same by block hash, once the block is complete
 }
 
